@@ -535,10 +535,19 @@ def write_bytes(u: U):
     f = u.load(RR, "ClientRequest._write_bytes",
                globals={"set_exception": lambda p, exc, cause=None: log.append(("set_exception", p, type(exc).__name__))})
     cl = None if u.choose(2, "content_length") == 0 else u.int("content_length", 0)
+    u.cancel_at_awaits = True
     out = u.call(f, req, _Writer(), _Conn(), cl)
     names = [e[0] for e in log]
     body_attempted = any(e[0] == "suspend" and e[3] == "body.write" for e in u.events)
     if not body_attempted:
+        # cancelled while draining the headers or while waiting for '100 Continue' (e.g. because the final response
+        # arrived first and the response clean-up cancels the writer task): the announced body was never sent
+        u.check("C06.write.only_cancel_escapes_before_body", (not out.ok) and isinstance(out.exc, asyncio.CancelledError), repr(out))
+        u.check("C06.write.cancel_before_body_closes", "conn.close" in names,
+                "a writer cancelled before the announced body went out (waiting for 100-continue, draining the headers) "
+                "closes the connection: the peer still expects Content-Length / chunked body bytes, so the next "
+                "request on that connection would be read as this request's body (RFC 9110 10.1.1)",
+                known=[("F6b", True)], witness={"expect_continue": cont})
         return
     body_ok = "write_eof" in names
     if out.ok and body_ok:
@@ -550,6 +559,11 @@ def write_bytes(u: U):
                 "(should_close), so it is closed at release and never reused")
     else:
         u.check("C06.write.only_cancel_escapes", isinstance(out.exc, asyncio.CancelledError), repr(out))
+        if body_ok:
+            # cancelled inside writer.write_eof(), after the whole body was handed over: not under contract here
+            # (StreamWriter.write_eof puts the terminator on the transport before it waits for the drain, unless a
+            # chunk-sent trace or executor compression suspends first - contracts/c04.py)
+            return
         u.check("C06.write.cancel_closes", "conn.close" in names,
                 "a cancelled body write closes the connection whatever was already written: it cannot be reused")
         u.check("C18.residue.cancelled_write_closes", "conn.close" in names,
